@@ -7,6 +7,8 @@ package main
 
 import (
 	"bufio"
+	"crypto/sha256"
+	"encoding/hex"
 	"encoding/json"
 	"fmt"
 	"io"
@@ -31,6 +33,7 @@ type stageResult struct {
 	Detail string `json:"detail,omitempty"`
 	Top    string `json:"top,omitempty"` // top naga frame of a panic
 	CPUms  int64  `json:"cpu_ms"`
+	Hash   string `json:"hash,omitempty"` // sha256 of the stage's output bytes (determinism checks)
 }
 
 type caseResult struct {
@@ -80,7 +83,17 @@ func topNagaFrame(stack string) string {
 
 var logf *os.File
 
+var curOut []byte
+
+// out records the output bytes of the running stage (hashed into the stage result).
+func out(b []byte, err error) error {
+	curOut = b
+	return err
+}
+func outS(s string, _ any, err error) error { return out([]byte(s), err) }
+
 func stage(res *caseResult, id, name string, f func() error) (ok bool) {
+	curOut = nil
 	if logf != nil {
 		fmt.Fprintf(logf, "BEGIN %s %s\n", id, name)
 	}
@@ -107,6 +120,10 @@ func stage(res *caseResult, id, name string, f func() error) (ok bool) {
 		}
 	}()
 	sr.CPUms = cpuMillis() - t0
+	if curOut != nil && sr.Status == "ok" {
+		h := sha256.Sum256(curOut)
+		sr.Hash = hex.EncodeToString(h[:8])
+	}
 	res.Stages = append(res.Stages, sr)
 	return sr.Status == "ok"
 }
@@ -126,30 +143,27 @@ func runCase(id, src string) caseResult {
 		mod, err = naga.LowerWithSource(ast, src)
 		return err
 	})
-	stage(&res, id, "compile-one-call", func() error { _, err := naga.Compile(src); return err })
+	stage(&res, id, "compile-one-call", func() error { return out(naga.Compile(src)) })
 	if okParse && mod != nil {
 		stage(&res, id, "validate", func() error { _, err := naga.Validate(mod); return err })
-		stage(&res, id, "spirv-1.3", func() error { _, err := naga.GenerateSPIRV(mod, spirv.Options{Version: spirv.Version1_3}); return err })
+		stage(&res, id, "spirv-1.3", func() error { return out(naga.GenerateSPIRV(mod, spirv.Options{Version: spirv.Version1_3})) })
 		stage(&res, id, "spirv-1.0-debug", func() error {
-			_, err := naga.GenerateSPIRV(mod, spirv.Options{Version: spirv.Version1_0, Debug: true, ForceLoopBounding: true})
-			return err
+			return out(naga.GenerateSPIRV(mod, spirv.Options{Version: spirv.Version1_0, Debug: true, ForceLoopBounding: true}))
 		})
-		stage(&res, id, "hlsl", func() error { _, _, err := hlsl.Compile(mod, hlsl.DefaultOptions()); return err })
+		stage(&res, id, "hlsl", func() error { return outS(hlsl.Compile(mod, hlsl.DefaultOptions())) })
 		stage(&res, id, "hlsl-sm6-restrict", func() error {
 			o := hlsl.DefaultOptions()
 			o.ShaderModel = hlsl.ShaderModel6_0
 			o.RestrictIndexing = true
 			o.ZeroInitializeWorkgroupMemory = true
-			_, _, err := hlsl.Compile(mod, o)
-			return err
+			return outS(hlsl.Compile(mod, o))
 		})
-		stage(&res, id, "msl", func() error { _, _, err := msl.Compile(mod, msl.DefaultOptions()); return err })
+		stage(&res, id, "msl", func() error { return outS(msl.Compile(mod, msl.DefaultOptions())) })
 		stage(&res, id, "msl-rzsw", func() error {
 			o := msl.DefaultOptions()
 			o.BoundsCheckPolicies = msl.BoundsCheckPolicies{Index: msl.BoundsCheckReadZeroSkipWrite, Buffer: msl.BoundsCheckReadZeroSkipWrite, Image: msl.BoundsCheckReadZeroSkipWrite}
 			o.ZeroInitializeWorkgroupMemory = true
-			_, _, err := msl.Compile(mod, o)
-			return err
+			return outS(msl.Compile(mod, o))
 		})
 		for i, ep := range mod.EntryPoints {
 			if i >= 3 {
@@ -160,19 +174,17 @@ func runCase(id, src string) caseResult {
 				o := glsl.DefaultOptions()
 				o.LangVersion = glsl.Version{Major: 4, Minor: 50}
 				o.EntryPoint = name
-				_, _, err := glsl.Compile(mod, o)
-				return err
+				return outS(glsl.Compile(mod, o))
 			})
 			stage(&res, id, "glsl-es310", func() error {
 				o := glsl.DefaultOptions()
 				o.LangVersion = glsl.Version{Major: 3, Minor: 10, ES: true}
 				o.EntryPoint = name
-				_, _, err := glsl.Compile(mod, o)
-				return err
+				return outS(glsl.Compile(mod, o))
 			})
 		}
 		if len(mod.EntryPoints) > 0 {
-			stage(&res, id, "dxil", func() error { _, err := dxil.Compile(mod, dxil.DefaultOptions()); return err })
+			stage(&res, id, "dxil", func() error { return out(dxil.Compile(mod, dxil.DefaultOptions())) })
 		}
 		stage(&res, id, "process-overrides", func() error {
 			c := ir.CloneModuleForOverrides(mod)
